@@ -52,7 +52,7 @@ def generate(rng, tier):
     nreq = r.choice([1, 1, 2, 2, 3, 4])
     pipelined = nreq > 1 and r.random() < 0.35
     profile = {"adversarial": r.choice([0.0, 0.3, 0.6, 0.9]), "adversarial_reply": r.choice([0.0, 0.0, 0.3, 0.7]),
-               "trailers": 0.0, "bare_lf": r.choice([0.0, 0.05]), "obs_fold": 0.1, "expect": 0.1, "interim": 0.1,
+               "trailers": r.choice([0.0, 0.1, 0.3]), "bare_lf": r.choice([0.0, 0.05]), "obs_fold": 0.1, "expect": 0.1, "interim": 0.1,
                "tail": r.choice([0.0, 0.0, 0.2]),
                "odd_method": 0.05, "http10": 0.1}
     reqs, replies, methods = [], {}, []
@@ -212,6 +212,11 @@ def recorded_response(obs, f):
 def _hdr_diff(a, b, alts=()):
     if a == b or any(a == x for x in alts):
         return None
+    # an obs-fold with an empty continuation line unfolds to one or two spaces depending on the reader (RFC 9112 5.2
+    # allows replacing each obs-fold by one OR MORE SP): whitespace runs are not compared
+    sq = lambda fs: [(n, re.sub(rb"[ \t]+", b" ", v)) for n, v in fs]  # noqa: E731
+    if sq(a) == sq(b) and any(b"  " in v for _, v in list(a) + list(b)):
+        return None
     for i, (x, y) in enumerate(zip(a, b)):
         if x != y:
             return f"field #{i}: wire={x!r} recorded={y!r}"
@@ -310,13 +315,24 @@ def oracle(sc, obs):
         # (bare LF etc.) fall back to the methods mitmproxy recorded (the policy never edits HEAD-ness)
         methods = [m.method for m in cp.msgs]
         methods += [f.request.data.method for f in myflows[len(methods):]]
-        if cp.status == "ambiguous" and len(myflows) <= len(cp.msgs):
-            # a message both P and mitmproxy refuse: the client still expects an answer to the method it sent, which
-            # is the first token of the refused request line (an error answer to HEAD carries no body)
-            tok = cp.rest.lstrip(b"\r\n").split(b"\n", 1)[0].split(None, 1)[:1]
-            if tok:
-                methods.append(tok[0].strip())
+        if cp.status != "ok":
+            # a message P cannot read to its end (refused, or its announced body never came) and mitmproxy refuses:
+            # the client still expects an answer to the method it sent, which
+            # is the first token of the refused request line (an error answer to HEAD carries no body).  Request lines
+            # are looked up in the client's raw stream (generated bodies never contain one).
+            if len(methods) == len(cp.msgs):
+                # P stopped exactly at the message nobody could parse: its first token
+                tok = cp.rest.lstrip(b"\r\n").split(b"\n", 1)[0].split(None, 1)[:1]
+                if tok:
+                    methods.append(tok[0].strip())
         rp = P.parse_responses(c.received, methods + [b"GET"] * 4, c.proxy_closed)
+        if cp.status != "ok" and rp.status != "ok" and len(rp.msgs) >= len(methods) and \
+                re.search(rb"HEAD [^\r\n]* HTTP/", c.sent):
+            # P stopped earlier than mitmproxy did (bare LF etc.), so the method of the message that was finally refused
+            # is unknown to the oracle; if the client did send a HEAD request line, a head-only error answer is fine
+            rp2 = P.parse_responses(c.received, methods + [b"HEAD"] * 4, c.proxy_closed)
+            if rp2.status == "ok" and rp2.msgs and (rp2.msgs[-1].get(b"server") or b"").startswith(b"mitmproxy"):
+                rp = rp2
         if rp.status == "ambiguous":
             prev = "none"
             if rp.msgs:
@@ -396,7 +412,14 @@ def oracle(sc, obs):
         for t in re.findall(rb"\r\nX-R(\d+): w", c.received):
             relayed.add(int(t))
     for k, rspec in sc["origins"]["*"]["replies"].items():
-        rp = P.parse_responses(H.B(rspec["data"]), [H.B(rspec.get("method", "GET"))], True)
+        data = H.B(rspec["data"])
+        # interim (1xx) responses that mitmproxy swallows never reach the client: a defect inside them is not relayed
+        while re.match(rb"HTTP/1\.[01] 1(?!01)\d\d[ \r]", data) and b"\r\n\r\n" in data:
+            head, _, after = data.partition(b"\r\n\r\n")
+            if any(head.split(b"\r\n", 1)[0] + b"\r\n" in c.received for c in obs.clients):
+                break
+            data = after
+        rp = P.parse_responses(data, [H.B(rspec.get("method", "GET"))], True)
         resp_stream = bool(sc["options"].get("stream_large_bodies")) or any(
             p.get("action") == "stream" and p.get("which") == "response" for p in sc.get("policy", []))
         if rp.status == "ambiguous" and rp.kind in (("framing", "name") if resp_stream else ("framing", "name", "chunk")):
